@@ -247,6 +247,7 @@ pub struct MockNode {
     pub conns: Mutex<Vec<Arc<Conn>>>,
     /// number of PREPARE / non-system request frames seen (cheap counters for checks)
     pub prepares_seen: AtomicU64,
+    pub started_once: AtomicBool,
     /// delay (ms) before this node answers OPTIONS: makes connection setup slow
     pub handshake_delay_ms: AtomicU64,
     stop: Mutex<Option<watch::Sender<bool>>>,
@@ -498,6 +499,7 @@ impl MockCluster {
             prepared: Mutex::new(HashMap::new()),
             conns: Mutex::new(Vec::new()),
             prepares_seen: AtomicU64::new(0),
+            started_once: AtomicBool::new(false),
             handshake_delay_ms: AtomicU64::new(0),
             stop: Mutex::new(None),
         });
@@ -529,18 +531,27 @@ impl MockCluster {
         if node.up.load(Ordering::SeqCst) {
             return true;
         }
-        let main = match TcpListener::bind(SocketAddr::new(IpAddr::V4(node.ip), MAIN_PORT)).await {
-            Ok(l) => l,
-            Err(_) => return false,
-        };
-        let sa = if node.sharding().map(|s| s.shard_aware_port).unwrap_or(false) {
-            match TcpListener::bind(SocketAddr::new(IpAddr::V4(node.ip), SHARD_AWARE_PORT)).await {
-                Ok(l) => Some(l),
-                Err(_) => return false,
+        // a restart may race with the previous accept loops letting go of their listeners: retry for a while
+        // (a first start does not: there a busy address means the network is taken by another process)
+        let tries = if node.started_once.swap(true, Ordering::SeqCst) { 80 } else { 1 };
+        let mut bound = None;
+        for t in 0..tries {
+            if t > 0 {
+                tokio::time::sleep(Duration::from_millis(25)).await;
             }
-        } else {
-            None
-        };
+            let Ok(main) = TcpListener::bind(SocketAddr::new(IpAddr::V4(node.ip), MAIN_PORT)).await else { continue };
+            let sa = if node.sharding().map(|s| s.shard_aware_port).unwrap_or(false) {
+                match TcpListener::bind(SocketAddr::new(IpAddr::V4(node.ip), SHARD_AWARE_PORT)).await {
+                    Ok(l) => Some(l),
+                    Err(_) => continue,
+                }
+            } else {
+                None
+            };
+            bound = Some((main, sa));
+            break;
+        }
+        let Some((main, sa)) = bound else { return false };
         let (stop_tx, stop_rx) = watch::channel(false);
         *node.stop.lock().unwrap() = Some(stop_tx);
         node.up.store(true, Ordering::SeqCst);
@@ -552,9 +563,17 @@ impl MockCluster {
             tokio::spawn(async move {
                 loop {
                     tokio::select! {
+                        biased;
                         _ = stop_rx.changed() => break,
                         acc = l.accept() => {
                             let Ok((sock, src)) = acc else { break };
+                            // a node stopped meanwhile serves nobody: a connection that slipped into the
+                            // backlog before this task saw the stop signal is reset, as a dead host would
+                            if *stop_rx.borrow() || !node.up.load(Ordering::SeqCst) {
+                                let _ = socket2::SockRef::from(&sock).set_linger(Some(Duration::ZERO));
+                                drop(sock);
+                                break;
+                            }
                             let _ = sock.set_nodelay(true);
                             let inner = inner.clone();
                             let node = node.clone();
@@ -790,6 +809,10 @@ async fn serve_conn(inner: Arc<ClusterInner>, node: Arc<MockNode>, sock: TcpStre
 
     tokio::pin!(reader);
     let mut writer = writer;
+    // the node was stopped between accept and registration: stop_node did not see this connection
+    if !node.up.load(Ordering::SeqCst) {
+        conn.close(CloseHow::Rst);
+    }
     let by;
     tokio::select! {
         b = &mut reader => {
